@@ -174,7 +174,8 @@ def correspondence(ctx):
     # (1) the five binary loaders on whole files: model = SAUCE split + dispatch + loader, picture compared by digest
     for ext in g.BINARY:
         per = ctx.n(24, 150) if ext in ('adf', 'idf') else ctx.n(60, 500)       # ADF / IDF files have 4 KiB of font
-        muts = g.mutants(rng, ext, seeds.get(ext, [])[:2], per, trunc_limit=per // 3)
+        sd = seeds.get(ext, [])
+        muts = g.mutants(rng, ext, sd[:2] + sd[-2:], per, trunc_limit=per // 3)
         rng.shuffle(muts)
         chosen = [m for m in muts if m[0] == 'valid'] + [m for m in muts if m[0] != 'valid'][:per]
         for lbl, d in chosen:
